@@ -206,7 +206,7 @@ def run(tier, replay=None):
     report = common.Report("C02", tier)
     if replay:
         return do_replay(replay)
-    proof = common.prove(report, "C02", ["varconsts", "jis8"], extra_targets=["Run/C02Run.vo"])
+    proof = common.prove(report, "C02", ["varconsts", "jis8", "pyvarhdr"], extra_targets=["Run/C02Run.vo"])
     ok, log = common.coq_make(["Run/C02Run.vo"])
     if not ok:
         report.violation({"kind": "broken-obligation", "obligation": "model Run/C02Run.vo does not build against the regenerated constants",
